@@ -3,8 +3,9 @@ import PegVerif.Model.Builder
 import PegVerif.Exec.Driver
 /-
   `pegmodel front`: one JSON request per line `{"id","runes":[…],"fuel"?}` → one JSON line
-  `{"id","result": {"syntaxError":true} | {"panic":msg} | {"unsupported":msg} | {"tree":[…]}}`
-  where `tree` has the shape of pegx's dump.  `runes` is Go's `[]rune(text)` (peglib.runes_of).
+  `{"id","result": {"syntaxError":true} | {"panic":msg} | {"unsupported":msg} | {"tree":[…]} | {"compileError":msg}}`
+  where `tree` has the shape of pegx's dump and `compileError` is the text of the error `Compile`
+  returns before doing anything else when the builder recorded errors (pegx: `frontError`).  `runes` is Go's `[]rune(text)` (peglib.runes_of).
   Default fuel: 64 · (number of runes) + 4096 (the recursion depth of `evalF`, not its step count).
 -/
 namespace PegVerif
